@@ -234,6 +234,60 @@ def _ivp_case(arg):
     return res.as_dict()
 
 
+def _ivp_variant_case(arg):
+    """Further routes of the initial-value solver: the default integration interval, tight solver tolerances (the error
+    must then fall well below the default accuracy), another radial grid / transformation, and scaling of the density."""
+    variant, seed = arg
+    from grid.atomgrid import AtomGrid
+    from grid.onedgrid import GaussLegendre, Trapezoidal
+    from grid.poisson import solve_poisson_ivp
+    from grid.rtransform import BeckeRTransform, InverseRTransform, LinearFiniteRTransform
+
+    res = WorkerResult(section="ivp")
+    case = {"route": "ivp-variant", "variant": variant}
+    spec = {
+        "default-interval": (LinearFiniteRTransform(1e-5, 1000.0), Trapezoidal(10000), {}, 1.5e-2, 2e-3),
+        "tight-tolerances": (LinearFiniteRTransform(1e-3, 1000.0), Trapezoidal(10000),
+                             {"r_interval": (1000.0, 1e-3), "ode_params": {"rtol": 1e-10, "atol": 1e-10}}, 1e-3, 1e-4),
+        "becke-gl200": (BeckeRTransform(1e-5, 1.5), GaussLegendre(200), {"r_interval": (500.0, 1e-4)}, 5e-3, 1e-2),
+    }[variant]
+    btf, rule, kw, tol, tol_lin = spec
+    with warnings.catch_warnings():
+        warnings.simplefilter("ignore")
+        g = AtomGrid(btf.transform_1d_grid(rule), degrees=[5], center=CENTRE, rotate=3)
+    a = 1.0 * (1 + lattice.jitter(seed, "ivpv", 0.0, 0.05))
+    rho = rho_gauss(g.points, CENTRE, a)
+    q = eval_points(seed)
+    q = q[np.linalg.norm(q - CENTRE, axis=1) < 100.0]
+    params = kw.get("ode_params")
+    snap = None if params is None else dict(params)
+    res.count(2 * len(q))
+    try:
+        with warnings.catch_warnings():
+            warnings.simplefilter("ignore")
+            with np.errstate(all="ignore"):
+                v1 = np.asarray(solve_poisson_ivp(g, rho, InverseRTransform(btf), **kw)(q), dtype=float)
+                v3 = np.asarray(solve_poisson_ivp(g, -2.5 * rho, InverseRTransform(btf), **kw)(q), dtype=float)
+    except Exception as exc:
+        res.violation(f"ivp:{variant}:raised:{type(exc).__name__}", f"{case}: {exc}", case)
+        return res.as_dict()
+    if params is not None and params != snap:
+        res.violation("ivp:ode_params-modified", "the caller's ode_params dictionary was modified", case)
+    ref = v_gauss(q, CENTRE, a)
+    res.nontrivial(n=len(q))
+    err = float(np.max(np.abs(v1 - ref)))
+    lin = float(np.max(np.abs(v3 + 2.5 * v1)))
+    if not np.all(np.isfinite(v1)) or _gt(err, tol):
+        res.violation(f"ivp:{variant}:potential-differs-from-analytic", f"{case}: max error {err:.2e} > {tol:g}", case)
+    else:
+        res.maximum(f"ivp_err:{variant}", err)
+    if _gt(lin, tol_lin):
+        res.violation(f"ivp:{variant}:not-linear-in-the-density", f"{case}: V[-2.5 rho] + 2.5 V[rho] = {lin:.2e} > {tol_lin:g}", case)
+    else:
+        res.maximum(f"ivp_lin:{variant}", lin)
+    return res.as_dict()
+
+
 def _laplacian_case(arg):
     disp, alpha, seed = arg
     from grid.poisson import interpolate_laplacian
@@ -460,6 +514,8 @@ def run(ctx):
     for alpha in ALPHAS:
         jobs.append(("ivp", (alpha, ctx.seed)))
     jobs.append(("ivp", (1.0, ctx.seed, 200.0)))   # integration starts inside the radial grid
+    for variant in ("default-interval", "tight-tolerances", "becke-gl200"):
+        jobs.append(("ivpv", (variant, ctx.seed)))
     jobs.append(("rob2", (True, 8.0, ctx.seed)))
     jobs.append(("rob2", (False, 8.0, ctx.seed)))
     for mol in ("OO", "OCO", "CCC") + (("ClCl", "HOHO") if ctx.thorough else ()):
@@ -477,7 +533,7 @@ def run(ctx):
     jobs += [("mol", (10.0, ctx.seed, 1e-3)), ("mol", (4.0, ctx.seed, 1e-3))]
     if ctx.thorough:
         jobs += [("mol", (1.4, ctx.seed)), ("mol", (1.4, ctx.seed, 1e-3)), ("mol", (2.5, ctx.seed, 1e-3))]
-    jobs.sort(key=lambda j: {"mol": 0, "bvp": 1 if j[1][0] == 15 else 3, "lin": 1, "ivp": 2, "lap": 3, "rob": 4, "rob2": 2}[j[0]])
+    jobs.sort(key=lambda j: {"ivpv": 1, "mol": 0, "bvp": 1 if j[1][0] == 15 else 3, "lin": 1, "ivp": 2, "lap": 3, "rob": 4, "rob2": 2}[j[0]])
     for res in lattice.pmap_unordered(_dispatch, jobs, ctx.workers):
         if len(ctx.samples) > 8:
             res["samples"] = []
@@ -490,7 +546,7 @@ def run(ctx):
 def _dispatch(job):
     kind, arg = job
     return {"bvp": _bvp_case, "lin": _linearity_case, "ivp": _ivp_case, "lap": _laplacian_case, "rob": _robust_case,
-            "mol": _mol_case, "rob2": _robust2_case}[kind](arg)
+            "mol": _mol_case, "rob2": _robust2_case, "ivpv": _ivp_variant_case}[kind](arg)
 
 
 def replay(ctx, case):
@@ -499,6 +555,8 @@ def replay(ctx, case):
         ctx.merge(_bvp_case((case["degree"], case["displacement"], case["alpha"], tuple(case["options"]), ctx.seed)))
     elif r == "linearity":
         ctx.merge(_linearity_case((case["degree"], ctx.seed)))
+    elif r == "ivp-variant":
+        ctx.merge(_ivp_variant_case((case["variant"], ctx.seed)))
     elif r == "ivp":
         ctx.merge(_ivp_case((case["alpha"], ctx.seed, case.get("r_start", 1000.0))))
     elif r == "robust2":
